@@ -19,16 +19,19 @@ use crate::core::exec::now_step;
 #[projections]
 #[derive(AgentLaneModel)]
 pub struct SimAgent {
-    val: ValueLane<i32>,
+    // Three lanes are known to the outside under a name that is not the name of their field.
+    #[item(name = "val")]
+    val_main: ValueLane<i32>,
     #[item(transient)]
     tval: ValueLane<i32>,
-    map: MapLane<i32, i32>,
+    #[item(name = "map")]
+    map_main: MapLane<i32, i32>,
     bmap: MapLane<i32, i32, BTreeMap<i32, i32>>,
     #[item(transient)]
     tmap: MapLane<i32, i32>,
     smap: MapLane<String, i32>,
-    #[item(transient)]
-    sup: SupplyLane<i32>,
+    #[item(transient, name = "sup")]
+    sup_main: SupplyLane<i32>,
     #[item(transient)]
     cmd: CommandLane<i32>,
     vstore: ValueStore<i32>,
@@ -102,6 +105,18 @@ pub enum Ctl {
     Xf { item: i32, key: i32, value: i32, remove: bool },
     #[form(tag = "no")]
     Nop,
+    /// Creates a commander for lane `r{target}` of node `/target` in a handler that runs long after `on_start`
+    /// (`target` 2 or 3; the commanders for r0 and r1 are created in `on_start`). `CmdrSend` to that target uses it.
+    #[form(tag = "nc")]
+    NewCmdr { target: i32 },
+    /// Sets value item `item` like `SetVal`, with the setting handler wrapped: 0 `Some(h).discard()`,
+    /// 1 `h.map(..)`, 2 `h.and_then(..)`, 3 `h.followed_by(unit)`.
+    #[form(tag = "sw")]
+    SetWrapped { item: i32, start: i32, n: i32, shape: i32 },
+    /// The handler fails with an error that is fatal for the agent (after recording the command): the agent task
+    /// ends with an error; the runtime must still close every open link.
+    #[form(tag = "cr")]
+    Crash,
 }
 
 #[derive(Debug, Clone, PartialEq, Eq)]
@@ -151,12 +166,30 @@ pub struct SimLifecycle {
     pub truth: SharedTruth,
     /// Commanders registered in `on_start` (one per registered target lane).
     pub commanders: Arc<Mutex<Vec<swimos::agent::commander::Commander<SimAgent>>>>,
+    /// Commanders created later by `Ctl::NewCmdr`, by target lane number.
+    pub late_commanders: Arc<Mutex<BTreeMap<i32, swimos::agent::commander::Commander<SimAgent>>>>,
     /// Ad hoc commands are addressed to a remote host (one channel for all target lanes) instead of locally
     /// (one channel per target lane).
     pub remote_host: bool,
     /// A value that makes the lifecycle handler of a value lane fail (after it has been recorded): the lane keeps
     /// the value and it must still be published.
     pub fail_on_multiple_of: i32,
+}
+
+/// A handler that fails with an error the agent treats as fatal.
+struct FatalFailure;
+
+impl swimos::agent::event_handler::HandlerAction<SimAgent> for FatalFailure {
+    type Completion = ();
+
+    fn step(
+        &mut self,
+        _action_context: &mut swimos::agent::event_handler::ActionContext<SimAgent>,
+        _meta: swimos_agent::AgentMetadata,
+        _context: &SimAgent,
+    ) -> swimos::agent::event_handler::StepResult<Self::Completion> {
+        swimos::agent::event_handler::StepResult::Fail(swimos::agent::event_handler::EventHandlerError::SteppedAfterComplete)
+    }
 }
 
 #[derive(Debug)]
@@ -181,7 +214,7 @@ type Boxed = LocalBoxEventHandler<'static, SimAgent>;
 
 fn set_item(context: Ctx, item: i32, v: i32) -> Boxed {
     match item {
-        0 => context.set_value(SimAgent::VAL, v).boxed_local(),
+        0 => context.set_value(SimAgent::VAL_MAIN, v).boxed_local(),
         1 => context.set_value(SimAgent::TVAL, v).boxed_local(),
         2 => context.set_value(SimAgent::VSTORE, v).boxed_local(),
         _ => context.set_value(SimAgent::TVSTORE, v).boxed_local(),
@@ -190,7 +223,7 @@ fn set_item(context: Ctx, item: i32, v: i32) -> Boxed {
 
 fn upd_item(context: Ctx, item: i32, k: i32, v: i32) -> Boxed {
     match item {
-        0 => context.update(SimAgent::MAP, k, v).boxed_local(),
+        0 => context.update(SimAgent::MAP_MAIN, k, v).boxed_local(),
         1 => context.update(SimAgent::BMAP, k, v).boxed_local(),
         2 => context.update(SimAgent::TMAP, k, v).boxed_local(),
         _ => context.update(SimAgent::MSTORE, k, v).boxed_local(),
@@ -199,7 +232,7 @@ fn upd_item(context: Ctx, item: i32, k: i32, v: i32) -> Boxed {
 
 fn rem_item(context: Ctx, item: i32, k: i32) -> Boxed {
     match item {
-        0 => context.remove(SimAgent::MAP, k).boxed_local(),
+        0 => context.remove(SimAgent::MAP_MAIN, k).boxed_local(),
         1 => context.remove(SimAgent::BMAP, k).boxed_local(),
         2 => context.remove(SimAgent::TMAP, k).boxed_local(),
         _ => context.remove(SimAgent::MSTORE, k).boxed_local(),
@@ -208,7 +241,7 @@ fn rem_item(context: Ctx, item: i32, k: i32) -> Boxed {
 
 fn clr_item(context: Ctx, item: i32) -> Boxed {
     match item {
-        0 => context.clear(SimAgent::MAP).boxed_local(),
+        0 => context.clear(SimAgent::MAP_MAIN).boxed_local(),
         1 => context.clear(SimAgent::BMAP).boxed_local(),
         2 => context.clear(SimAgent::TMAP).boxed_local(),
         _ => context.clear(SimAgent::MSTORE).boxed_local(),
@@ -218,7 +251,7 @@ fn clr_item(context: Ctx, item: i32) -> Boxed {
 fn xf_item(context: Ctx, item: i32, k: i32, v: i32, remove: bool) -> Boxed {
     let f = move |_: Option<&i32>| if remove { None } else { Some(v) };
     match item {
-        0 => context.transform_entry(SimAgent::MAP, k, f).boxed_local(),
+        0 => context.transform_entry(SimAgent::MAP_MAIN, k, f).boxed_local(),
         1 => context.transform_entry(SimAgent::BMAP, k, f).boxed_local(),
         2 => context.transform_entry(SimAgent::TMAP, k, f).boxed_local(),
         _ => context.transform_entry(SimAgent::MSTORE, k, f).boxed_local(),
@@ -231,7 +264,7 @@ fn snap_item(context: Ctx, me: SimLifecycle, item: i32) -> Boxed {
     }
     match item {
         0 => context
-            .get_map(SimAgent::MAP)
+            .get_map(SimAgent::MAP_MAIN)
             .and_then(move |m: HashMap<i32, i32>| context.effect(move || me.rec(TruthEv::MapSnap { item: "map", map: conv(m) })))
             .boxed_local(),
         1 => context
@@ -258,7 +291,7 @@ impl SimLifecycle {
         let me = self.clone();
         let me2 = self.clone();
         context
-            .get_value(SimAgent::VAL)
+            .get_value(SimAgent::VAL_MAIN)
             .and_then(move |val: i32| {
                 context.get_value(SimAgent::TVAL).and_then(move |tval: i32| {
                     context
@@ -272,7 +305,7 @@ impl SimLifecycle {
             })
             .and_then(move |(val, tval, vstore, tvstore)| {
                 context
-                    .get_map(SimAgent::MAP)
+                    .get_map(SimAgent::MAP_MAIN)
                     .and_then(move |map: HashMap<i32, i32>| {
                         context
                             .get_map(SimAgent::BMAP)
@@ -323,7 +356,7 @@ impl SimLifecycle {
         context.effect(move || me.rec(TruthEv::Stop))
     }
 
-    #[on_event(val)]
+    #[on_event(val_main)]
     pub fn val_event(&self, context: Ctx, value: &i32) -> impl EventHandler<SimAgent> {
         let me = self.clone();
         let v = *value;
@@ -357,7 +390,7 @@ impl SimLifecycle {
         context.effect(move || me.rec(TruthEv::Value { item: "tvstore", value: v }))
     }
 
-    #[on_update(map)]
+    #[on_update(map_main)]
     pub fn map_update(
         &self,
         context: Ctx,
@@ -371,13 +404,13 @@ impl SimLifecycle {
         context.effect(move || me.rec(TruthEv::Update { item: "map", key: key.to_string(), value: v }))
     }
 
-    #[on_remove(map)]
+    #[on_remove(map_main)]
     pub fn map_remove(&self, context: Ctx, _map: &HashMap<i32, i32>, key: i32, _prev: i32) -> impl EventHandler<SimAgent> {
         let me = self.clone();
         context.effect(move || me.rec(TruthEv::Remove { item: "map", key: key.to_string() }))
     }
 
-    #[on_clear(map)]
+    #[on_clear(map_main)]
     pub fn map_clear(&self, context: Ctx, _prev: HashMap<i32, i32>) -> impl EventHandler<SimAgent> {
         let me = self.clone();
         context.effect(move || me.rec(TruthEv::Clear { item: "map" }))
@@ -525,7 +558,7 @@ impl SimLifecycle {
                     let v = start + i;
                     hs.push(
                         context
-                            .supply(SimAgent::SUP, v)
+                            .supply(SimAgent::SUP_MAIN, v)
                             .followed_by(context.effect(move || me.rec(TruthEv::Push { value: v })))
                             .boxed_local(),
                     );
@@ -545,14 +578,16 @@ impl SimLifecycle {
                 }
             }
             Ctl::CmdrSend { target, queued, start, n } => {
-                let cmdr = self.commanders.lock().unwrap().get(target.rem_euclid(2) as usize).copied();
+                let late = self.late_commanders.lock().unwrap().get(&target).copied();
+                let lane_no = if late.is_some() { target } else { target.rem_euclid(2) };
+                let cmdr = late.or_else(|| self.commanders.lock().unwrap().get(target.rem_euclid(2) as usize).copied());
                 if let Some(cmdr) = cmdr {
                     for i in 0..n {
                         let me = self.clone();
                         let v = start + i;
                         let send = if queued { cmdr.send_queued(v) } else { cmdr.send(v) };
                         hs.push(
-                            send.followed_by(context.effect(move || me.rec(TruthEv::Sent { target: 10 + target.rem_euclid(2), overwrite: !queued, value: v })))
+                            send.followed_by(context.effect(move || me.rec(TruthEv::Sent { target: 10 + lane_no, overwrite: !queued, value: v })))
                                 .boxed_local(),
                         );
                     }
@@ -563,6 +598,35 @@ impl SimLifecycle {
                 hs.push(snap_item(context, self.clone(), item));
             }
             Ctl::Nop => hs.push(UnitHandler::default().boxed_local()),
+            Ctl::NewCmdr { target } => {
+                let me = self.clone();
+                let t = 2 + target.rem_euclid(2);
+                hs.push(
+                    context
+                        .create_commander(None, "/target", format!("r{t}").as_str())
+                        .map(move |c| {
+                            me.late_commanders.lock().unwrap().insert(t, c);
+                        })
+                        .boxed_local(),
+                );
+            }
+            Ctl::SetWrapped { item, start, n, shape } => {
+                for i in 0..n {
+                    let h = set_item(context, item, start + i);
+                    hs.push(match shape.rem_euclid(4) {
+                        0 => Some(h).discard().boxed_local(),
+                        1 => h.map(|_| ()).boxed_local(),
+                        2 => h.and_then(move |_| UnitHandler::default()).boxed_local(),
+                        _ => h.followed_by(UnitHandler::default()).boxed_local(),
+                    });
+                }
+            }
+            Ctl::Crash => {
+                let me = self.clone();
+                let c = ctl.clone();
+                hs.push(context.effect(move || me.rec(TruthEv::Ctl { ctl: c })).boxed_local());
+                hs.push(FatalFailure.boxed_local());
+            }
         }
         let _ = MAP_ITEM_NAMES;
         Sequentially::new(hs).followed_by(context.effect(move || me.rec(TruthEv::Ctl { ctl: done })))
